@@ -121,15 +121,6 @@ func (c *Ctx) Unk(rule, construct string, pos token.Pos, format string, a ...int
 	c.add(rule, construct, pos, Undecided, fmt.Sprintf(format, a...))
 }
 
-// Check is OK when cond holds, Bad otherwise.
-func (c *Ctx) Check(cond bool, rule, construct string, pos token.Pos, okMsg, badMsg string) {
-	if cond {
-		c.OK(rule, construct, pos, "%s", okMsg)
-	} else {
-		c.Bad(rule, construct, pos, "%s", badMsg)
-	}
-}
-
 // Evals adds to the evaluation counter (enumerated orderings, unrollings, …).
 func (c *Ctx) Evals(n int) { c.evals += n }
 
@@ -146,7 +137,6 @@ func (c *Ctx) Floor(rule string, n int) {
 	}
 }
 
-func (c *Ctx) Assume(s string)                 { c.assume = append(c.assume, s) }
 func (c *Ctx) Note(f string, a ...interface{}) { c.notes = append(c.notes, fmt.Sprintf(f, a...)) }
 
 // ---------------------------------------------------------------- findings
